@@ -299,7 +299,9 @@ func Exec(fsys hackpadfs.FS, st Step, hs *Handles, mt MTimeSet) (res Result) {
 		}
 		acc := st.Flag & (os.O_WRONLY | os.O_RDWR)
 		if acc != 0 && st.Data != "" {
-			n, werr := hackpadfs.WriteFile(f, []byte(st.Data))
+			buf := []byte(st.Data)
+			n, werr := hackpadfs.WriteFile(f, buf)
+			scribble(buf)
 			res.N = int64(n)
 			res.Data = "write:" + okFail(werr)
 		} else if acc == 0 {
@@ -311,7 +313,9 @@ func Exec(fsys hackpadfs.FS, st Step, hs *Handles, mt MTimeSet) (res Result) {
 			}
 		}
 	case "WriteFullFile":
-		fillErr(&res, hackpadfs.WriteFullFile(fsys, st.P, []byte(st.Data), fs.FileMode(st.Perm)))
+		buf := []byte(st.Data)
+		fillErr(&res, hackpadfs.WriteFullFile(fsys, st.P, buf, fs.FileMode(st.Perm)))
+		scribble(buf)
 	case "Remove":
 		fillErr(&res, hackpadfs.Remove(fsys, st.P))
 	case "RemoveAll":
@@ -386,6 +390,14 @@ func Exec(fsys hackpadfs.FS, st Step, hs *Handles, mt MTimeSet) (res Result) {
 	return
 }
 
+// scribble overwrites a buffer that was handed to a write call: like the os package, a file system must have copied
+// what it needs by the time the call returns (callers reuse their buffers).
+func scribble(buf []byte) {
+	for i := range buf {
+		buf[i] = '#'
+	}
+}
+
 func okFail(err error) string {
 	if err == nil {
 		return "ok"
@@ -425,11 +437,15 @@ func execHandle(f hackpadfs.File, st Step, res *Result) {
 			res.Data = string(buf[:n])
 		}
 	case "H.Write":
-		n, err := hackpadfs.WriteFile(f, []byte(st.Data))
+		buf := []byte(st.Data)
+		n, err := hackpadfs.WriteFile(f, buf)
+		scribble(buf)
 		fillErr(res, err)
 		res.N = int64(n)
 	case "H.WriteAt":
-		n, err := hackpadfs.WriteAtFile(f, []byte(st.Data), st.Off)
+		buf := []byte(st.Data)
+		n, err := hackpadfs.WriteAtFile(f, buf, st.Off)
+		scribble(buf)
 		fillErr(res, err)
 		res.N = int64(n)
 	case "H.Seek":
